@@ -33,7 +33,7 @@ pub static DEF_C02: CheckDef = CheckDef {
     assumptions: &[
         "the interpreter's cycle counts are the reference (pinned to the published SM83 table by C06)",
     ],
-    required_classes: &["taken", "not-taken", "multi-instruction", "dispatch-under-cache-pressure", "translation-area-restarted", "restart-probe"],
+    required_classes: &["taken", "not-taken", "multi-instruction", "dispatch-under-cache-pressure", "restart-probe"],
     exhaustive: false,
 };
 
